@@ -207,6 +207,11 @@ def gen_component_pattern(rng, comp):
 def gen_pattern(rng):
     """(kind, spec, base, ic): an init dictionary over 1..3 components, or a constructor string"""
     ic = "1" if rng.random() < 0.25 else "0"
+    if rng.random() < 0.08:
+        # catch-all patterns: every component a bare wildcard
+        d = rng.choice([{}, {"pathname": "*"}, {"protocol": "*", "hostname": "*", "pathname": "*"}, {"pathname": "(.*)"},
+                        {"search": "*", "hash": "*"}, {"hostname": "*", "port": "*"}])
+        return "i", enc_init(d), "!", ic, d
     if rng.random() < 0.65:
         comps = rng.sample(KEYS, rng.choice([1, 1, 2, 3]))
         d = {c: gen_component_pattern(rng, c) for c in comps}
@@ -224,6 +229,16 @@ def gen_pattern(rng):
 
 
 def gen_input(rng):
+    if rng.random() < 0.12:
+        # inputs that denote no URL: unparsable string, unparsable base, failing dictionary, dictionary + base argument
+        k = rng.randrange(4)
+        if k == 0:
+            return "s", hx(rng.choice(["https://exa mple.com/", "https://example.com:99999/", "http://[::1", "//x", "", "foo"]).encode()), "!"
+        if k == 1:
+            return "s", hx(rng.choice(["/p", "https://ok.example/"]).encode()), hx(rng.choice(["not a base", "http://a b/", ""]).encode())
+        if k == 2:
+            return "i", enc_init(rng.choice([{"port": "99999"}, {"baseURL": "not a base"}, {"protocol": "a b"}, {"hostname": "a b"}])), "!"
+        return "i", enc_init(rng.choice([{"pathname": "/foo"}, {}])), hx(b"https://example.com/")
     if rng.random() < 0.7:
         u = rng.choice(["https", "http", "ws", "foo"]) + "://" + rng.choice(["", "user@", "u:p@"]) + \
             rng.choice(["example.com", "a-b.example", "EXAMPLE.com", "xn--a.b", "日本.jp", "[::1]", "127.0.0.1"]) + \
